@@ -126,9 +126,7 @@ func (h *Hub) RegisterRemoteSKI(ski string) {
 	}
 
 	// locally initiated
-	service.ConnectionStateDetail().SetState(api.ConnectionStateQueued)
-
-	h.notifyPairingDetail(ski, service.ConnectionStateDetail())
+	h.setAndNotifyPairingState(ski, service, api.ConnectionStateQueued)
 
 	h.mdns.RequestMdnsEntries()
 }
@@ -142,9 +140,7 @@ func (h *Hub) UnregisterRemoteSKI(ski string) {
 
 	h.removeConnectionAttemptCounter(ski)
 
-	service.ConnectionStateDetail().SetState(api.ConnectionStateNone)
-
-	h.notifyPairingDetail(ski, service.ConnectionStateDetail())
+	h.setAndNotifyPairingState(ski, service, api.ConnectionStateNone)
 
 	// wait for a connection that is just being set up, it is either refused or registered afterwards
 	h.muxConSetup.Lock()
@@ -212,9 +208,8 @@ func (h *Hub) CancelPairingWithSKI(ski string) {
 		}
 	}
 
-	service.ConnectionStateDetail().SetState(api.ConnectionStateNone)
 	// a handshake message processed meanwhile may have set the service to trusted again
 	service.SetTrusted(false)
 
-	h.notifyPairingDetail(ski, service.ConnectionStateDetail())
+	h.setAndNotifyPairingState(ski, service, api.ConnectionStateNone)
 }
